@@ -18,12 +18,12 @@ ASSUMPTIONS = ['member constraints are deterministic and idempotent (the documen
                'completeness is only asserted where success is reachable by plain cycling: commuting members must end on '
                'the success path; members with no common fixed point must end on the failure path']
 CLASSES = {
-    'and': {'quick': 45000, 'thorough': 250000},
-    'or': {'quick': 27000, 'thorough': 150000},
-    'not': {'quick': 14400, 'thorough': 75000},
-    'couplers': {'quick': 14400, 'thorough': 75000},
-    'penalty_comb': {'quick': 14400, 'thorough': 75000},
-    'and_nonidempotent': {'quick': 5400, 'thorough': 21600},
+    'and': {'quick': 45000, 'thorough': 450000},
+    'or': {'quick': 27000, 'thorough': 270000},
+    'not': {'quick': 14400, 'thorough': 144000},
+    'couplers': {'quick': 14400, 'thorough': 144000},
+    'penalty_comb': {'quick': 14400, 'thorough': 144000},
+    'and_nonidempotent': {'quick': 5400, 'thorough': 54000},
 }
 MIN_EVENTS = {'quick': {'assert:and': 2000, 'assert:or': 1200, 'assert:not': 600, 'assert:coupler': 1500,
                         'assert:pcomb': 1500, 'path:onexit': 1500, 'path:onfail': 300, 'random_draws': 500}}
